@@ -178,6 +178,24 @@ def _bnd_eq(a, b):
     return float(a[0]) == float(b[0]) and float(a[1]) == float(b[1]) and ta == tb
 
 
+def _state_diff(a, b):
+    """Keys whose values differ (NaN-aware)."""
+    out = []
+    for k in a:
+        va, vb = a[k], b[k]
+        if isinstance(va, dict):
+            if set(va) != set(vb) or any(
+                not (va[x] == vb[x] or (isinstance(va[x], float) and va[x] != va[x] and vb[x] != vb[x])) for x in va
+            ):
+                out.append(k)
+        elif isinstance(va, list):
+            if not np.array_equal(np.asarray(va, dtype=float), np.asarray(vb, dtype=float), equal_nan=True):
+                out.append(k)
+        elif not (va == vb or (isinstance(va, float) and va != va and vb != vb)):
+            out.append(k)
+    return out
+
+
 def _real_state(m):
     return {
         "var": float(m.var),
@@ -367,8 +385,8 @@ def check_history(case, rec):
                 return
             if res == "reject" and raised is not None:
                 after = _real_state(m)
-                if after != before:
-                    diff = [k for k in after if after[k] != before[k]]
+                diff = _state_diff(after, before)
+                if diff:
                     rec.soft(
                         f"{where}: rejected ({raised}) but the model changed: {diff}: "
                         f"{ {k: before[k] for k in diff} } -> { {k: after[k] for k in diff} }",
@@ -440,8 +458,8 @@ def _do_integral_scale(m, r, op, tags, rec, where):
             raise Violation(f"{where}: integral_scale assignment rejected: {raised}", dict(tags, kind="spurious_reject"))
         rec.label("integral_scale_documented_error")
         after = _real_state(m)
-        if after != before:
-            diff = [k for k in after if after[k] != before[k]]
+        diff = _state_diff(after, before)
+        if diff:
             rec.soft(
                 f"{where}: rejected ({raised}) but the model changed: {diff}",
                 dict(tags, kind="rejected_value_sticks"),
@@ -462,7 +480,7 @@ def _do_integral_scale(m, r, op, tags, rec, where):
         rec.exclude("K3-matern-nu>20-integral-scale")
         return False
     got, qerr = _integral_quad(m)
-    if not (qerr <= 1e-8 * abs(got)) or r.opt.get("alpha", 2.0) < 0.3:
+    if not (np.isfinite(got) and np.isfinite(qerr) and qerr <= 1e-8 * abs(got)) or r.opt.get("alpha", 2.0) < 0.3:
         # heavy tails / near-nugget shapes: the quadrature oracle itself is not reliable
         rec.label("integral_scale_quad_unreliable")
         return False
